@@ -465,10 +465,12 @@ fn seq_check(id: &str, tier: &str, replay: Option<&str>) -> i32 {
     rep.cov("samples", json!(samples));
     rep.cov("exhaustive", json!(exhaustive));
     rep.cov("distinct_outcome_classes", json!(outcome_classes.into_iter().collect::<Vec<_>>()));
-    if id == "C11" {
-        // the concurrent half: AddSnapshot overlapping GetSnapshot / AddVersion / AddSnapshot
+    // the concurrent half of properties that say "always": the same operations under the
+    // controlled scheduler (all schedules up to the preemption bound, linearizability oracle)
+    let extra = sched_extra(id, tier);
+    if !extra.is_empty() {
         let quick = tier != "thorough";
-        run_sched(&mut rep, "C11", &c11_scenarios(tier), if quick { 2 } else { 3 }, if quick { 1500 } else { 60000 }, false);
+        run_sched(&mut rep, id, &extra, if quick { 2 } else { 3 }, if quick { 1500 } else { 60000 }, false);
     }
     rep.cov("explanation", json!("every state and transition counted is an execution of the real Server / actix handler / storage code; the reference model is compared on each one"));
     rep.assume("bounded depth and alphabet as listed under coverage.runs; states with equal canonical model state are merged after their stored state was compared with the model");
@@ -777,11 +779,18 @@ fn c06_check(tier: &str, replay: Option<&str>) -> i32 {
             }
         }
     }
+    // two uploads in flight on one worker: every interleaving of their chunk deliveries
+    for spec in ["MemHttp", "SqlHttp"] {
+        for kinds in [["version", "version"], ["snapshot", "snapshot"], ["version", "snapshot"]] {
+            tasks.push(json!({"spec": spec, "route": "interleaved", "items": [], "interleaved": kinds, "max_chunks": if quick { 3 } else { 4 }}));
+        }
+    }
     let mut pool = crate::pool::Pool::spawn(threads(), "payload", &json!({"seed": seed()}));
     let results = pool.map(&tasks);
     drop(pool);
     let mut roundtrips = 0u64;
     let mut chunkings = 0u64;
+    let mut interleavings = 0u64;
     for (k, r) in results.iter().enumerate() {
         match r {
             Ok(res) => {
@@ -791,6 +800,7 @@ fn c06_check(tier: &str, replay: Option<&str>) -> i32 {
                 }
                 roundtrips += res["roundtrips"].as_u64().unwrap_or(0);
                 chunkings += res["chunkings"].as_u64().unwrap_or(0);
+                interleavings += res["interleavings"].as_u64().unwrap_or(0);
                 for f in res["findings"].as_array().cloned().unwrap_or_default() {
                     let mut t1 = tasks[k].clone();
                     // narrow the replay to the failing payload
@@ -799,7 +809,9 @@ fn c06_check(tier: &str, replay: Option<&str>) -> i32 {
                         let l = if let Some(c) = it["class"].as_str() { format!("{c}:{}", it["len"]) } else if let Some(t) = it["text"].as_str() { format!("text:{t:?}") } else if let Some(b) = it["byte"].as_u64() { format!("byte:{b:#04x}") } else { format!("bytes2:{:#06x}", it["bytes2"].as_u64().unwrap_or(0)) };
                         l == label
                     }).cloned().collect();
-                    t1["items"] = json!(only);
+                    if tasks[k]["interleaved"].is_null() {
+                        t1["items"] = json!(only);
+                    }
                     rep.violations.push(Violation {
                         property: "C06".into(),
                         signature: format!("payload|{}|{}|{}", tasks[k]["spec"].as_str().unwrap_or(""), tasks[k]["route"].as_str().unwrap_or(""), f["class"].as_str().unwrap_or("")),
@@ -817,6 +829,7 @@ fn c06_check(tier: &str, replay: Option<&str>) -> i32 {
     rep.cov("lengths", json!(lens.len()));
     rep.cov("classes", json!(CLASSES));
     rep.cov("explicit_chunkings", json!(chunkings));
+    rep.cov("interleaved_upload_pairs", json!(interleavings));
     rep.cov("implementations", json!(["MemLib", "SqlLib", "MemHttp", "SqlHttp"]));
     rep.cov("routes", json!(["add-version -> get-child-version", "add-snapshot -> snapshot"]));
     rep.cov("samples", json!([items[0], items[items.len() / 2], chunk_items[0], {"text": SPECIAL_TEXTS[1]}]));
@@ -1158,6 +1171,57 @@ fn run_sched(rep: &mut Report, prop: &str, scs: &[crate::esched::Scenario], boun
     rep.cov("sched_distinct_outcomes_total", json!(distinct_outcomes));
     rep.cov("sched_scenarios_with_several_outcomes", json!(multi_outcome_scenarios));
     rep.cov("blocked_events_observed", json!(blocked));
+}
+
+/// Scheduler scenarios that belong to a history-quantified property: the operations the
+/// property speaks about, overlapping.
+pub fn sched_extra(id: &str, tier: &str) -> Vec<crate::esched::Scenario> {
+    use crate::esched::{Backend, RKind, Scenario};
+    let quick = tier != "thorough";
+    let pairs: Vec<(Vec<RKind>, Vec<RKind>)> = match id {
+        "C11" => return c11_scenarios(tier),
+        // chain shape: overlapping appends, then the chain is read back
+        "C01" => vec![
+            (vec![RKind::AvLatest], vec![RKind::AvLatest]),
+            (vec![RKind::AvLatest, RKind::GcLatest], vec![RKind::AvLatest, RKind::GcLatest]),
+            (vec![RKind::AvNil], vec![RKind::AvNil]),
+            (vec![RKind::AvLatest], vec![RKind::AvStale]),
+        ],
+        "C02" => vec![
+            (vec![RKind::AvLatest], vec![RKind::AvLatest]),
+            (vec![RKind::AvLatest], vec![RKind::AvNil]),
+            (vec![RKind::AvLatest], vec![RKind::AvStale]),
+            (vec![RKind::AvStale], vec![RKind::AvStale]),
+            (vec![RKind::AvLatest], vec![RKind::AsLatest]),
+        ],
+        "C07" => vec![
+            (vec![RKind::AvLatest, RKind::GcLatest], vec![RKind::AvLatest, RKind::GcLatest]),
+            (vec![RKind::AvLatest, RKind::GcNil], vec![RKind::AsLatest, RKind::GcNil]),
+            (vec![RKind::AvNil, RKind::GcNil], vec![RKind::AvNil, RKind::GcNil]),
+        ],
+        "C08" => vec![
+            (vec![RKind::GcLatest], vec![RKind::AvLatest]),
+            (vec![RKind::GcNil], vec![RKind::AvNil]),
+            (vec![RKind::GcLatest], vec![RKind::AvStale]),
+            (vec![RKind::GcLatest, RKind::GcLatest], vec![RKind::AvLatest]),
+            (vec![RKind::GcNil], vec![RKind::AvLatest]),
+        ],
+        _ => return vec![],
+    };
+    let mut out = vec![];
+    for init in ["empty", "chain2+snapshot"] {
+        for (a, b) in &pairs {
+            for backend in [Backend::Mem, Backend::SqlShared, Backend::SqlPerThread] {
+                for http in [false, true] {
+                    if quick && backend == Backend::SqlPerThread && !http {
+                        continue;
+                    }
+                    out.push(Scenario { init: init.into(), threads: vec![a.clone(), b.clone()], backend, http, lock_points: false, constructor_thread: false });
+                }
+            }
+        }
+    }
+    out
 }
 
 /// The snapshot pairings of C11 under the scheduler.
